@@ -125,7 +125,14 @@ pub fn lexer_safe(name: &str) -> bool {
         return false;
     }
     match &toks[0] {
-        text_query::Token::Ident(s) => s == name,
+        // the words the query parser reads as an attribute of the unit that follows (`UK pint`,
+        // `survey foot`; attr_from_name in text_query.rs) are not usable as names by themselves
+        text_query::Token::Ident(s) => s == name && !ATTRIBUTE_WORDS.contains(&name),
         _ => false,
     }
 }
+
+pub const ATTRIBUTE_WORDS: [&str; 18] = [
+    "int", "international", "UKSJJ", "UKB", "UKC", "UKK", "imperial", "british", "UK", "survey", "geodetic", "irish", "aust", "australian",
+    "roman", "egyptian", "greek", "olympic",
+];
